@@ -252,4 +252,3 @@ def rules(ctx):
         Rule("R13.d", "distinction-losing equivalence is called only from cast/codegen sites (who-may-call, resolved)", 8, r13d),
         Rule("R13.e", "nested nominal pairs keep their identity on the acceptance path", 3, r13e),
     ]
-READY = False
